@@ -344,7 +344,7 @@ func vfRouteBFS(t *testing.T, pool *vrt.Pool, sc *vfRouteScenario, maxDepth int,
 			if len(tail) > 3000 {
 				tail = tail[len(tail)-3000:]
 			}
-			if r.Crashed && (props["C08"] || props["C04"]) {
+			if r.Crashed && vrt.CrashInCodeUnderTest(r.Stderr) {
 				res.Violate("routing/"+kind, fmt.Sprintf("scenario %s path %v: worker %s\n%s", sc.Name, path, kind, tail), map[string]any{"scenario": sc, "path": path})
 			} else {
 				st.HarnessErrors = append(st.HarnessErrors, fmt.Sprintf("%s on %v", kind, path))
